@@ -215,6 +215,7 @@ def run(ctx):
     sens_terms = []
     ids_cases = []
     tree_cases = []
+    copy_cases, copy_recs = [], []
 
     def one_tree(inputs, output, size_dict, path, label, probe=False):
         N = len(inputs)
@@ -222,6 +223,40 @@ def run(ctx):
         cls = ctg.ContractionTreeCompressed if rng.random() < 0.5 else ctg.ContractionTree
         tree = cls.from_path(inputs, output, size_dict, path=path)
         nested = gen.tree_nested(tree)
+        # ---- a state transfer must keep the ORDERED tree: copy() -----------------------------------------
+        tc = tree.copy()
+        rec_c = {"inputs": inputs, "output": output, "size_dict": size_dict, "path": [list(p) for p in path],
+                 "tree_class": cls.__name__}
+        trav0 = list(tree.traverse())
+        if list(tc.get_ssa_path()) != list(tree.get_ssa_path()) or list(tc.traverse()) != trav0:
+            ctx.fail("tree.copy() is not ordered like the original (default-order ssa path %r vs %r)" % (
+                list(tc.get_ssa_path()), list(tree.get_ssa_path())), rec_c)
+        else:
+            ctx.count("copy_ordered")
+        for chi_c in CHIS:
+            for late_c in (False, True):
+                a_ = tree.compressed_contract_stats(chi_c, order=tree.get_default_order(), compress_late=late_c)
+                b_ = tc.compressed_contract_stats(chi_c, order=tc.get_default_order(), compress_late=late_c)
+                if any(getattr(a_, f) != getattr(b_, f) for f in ("flops", "max_size", "write", "peak_size")):
+                    ctx.fail("compressed stats of tree.copy() differ from the original's at chi=%r compress_late=%r: "
+                             "%r vs %r" % (chi_c, late_c, [getattr(b_, f) for f in ("flops", "max_size", "write", "peak_size")],
+                                           [getattr(a_, f) for f in ("flops", "max_size", "write", "peak_size")]),
+                             dict(rec_c, chi=chi_c, compress_late=late_c))
+        # model: the ordered tree is (tree, order) and copy is the identity on it -- the model run on the
+        # ORIGINAL's traversal must reproduce the trace recorded on the COPY with its default order
+        if N >= 2:
+            chi_c, late_c = rng.choice(CHIS), rng.random() < 0.5
+            try:
+                _, trace_c = run_recorded(core, tc, chi_c, tc.get_default_order(), late_c)
+                term = "ccs_trace {c} {l} (ccs_init {n}) {o}".format(c=coq(Z(chi_c)), l=coq(late_c),
+                                                                    n=gen.net_lit(inputs, output, size_dict), o=order_lit(trav0))
+                sens = "t_sens (cs_tr (ccs_run {c} {l} {n} {o}))".format(c=coq(Z(chi_c)), l=coq(late_c),
+                                                                         n=gen.net_lit(inputs, output, size_dict), o=order_lit(trav0))
+                rhs = coq([(t_[0], (t_[1], (t_[2], t_[3]))) for t_ in trace_c])
+                copy_cases.append(("%s/copy/chi=%s/late=%s" % (label, chi_c, late_c), "if %s then %s else %s" % (sens, rhs, term), rhs))
+                copy_recs.append(dict(rec_c, chi=chi_c, compress_late=late_c))
+            except Exception as e:
+                ctx.fail("compressed_contract_stats on tree.copy() raised %r" % (e,), rec_c)
         spec = oracle.spec_costs(inputs, output, size_dict, nested)
         raw = [oracle.prod(size_dict[ix] for ix in t) for t in inputs]
         netl = gen.net_lit(inputs, output, size_dict)
@@ -398,6 +433,9 @@ def run(ctx):
         rec.update(model_value=val, case=label,
                    correspondence="Model/Compressed.v ccs_trace vs compressed_contract_stats with a recording tracker")
         ctx.fail("model and implementation disagree on the compressed-contraction trace", rec, found_input=False)
+    for idx, label, val in ctx.coq_cases("c20_copy", ["Compressed"], copy_cases, chunk=40, timeout=900):
+        ctx.fail("copy does not preserve the ordered tree: the model run on the original's (tree, order) does not reproduce "
+                 "the trace recorded on tree.copy()", dict(copy_recs[idx], model_value=val, case=label), found_input=False)
     # hypothesis of the peak / total_size theorems, evaluated for every compared run
     for idx, label, val in ctx.coq_cases("c20_ids_ok", ["Compressed", "CompressedPeakFacts"], ids_cases, chunk=60, timeout=900):
         rec = dict(records[idx]) if idx < len(records) else {}
@@ -418,7 +456,7 @@ def run(ctx):
 
     # ---------------- compressed pathfinders ------------------------------------------
     methods = ["direct-greedy-compressed", "direct-greedy-span", "hyper:greedy-compressed", "hyper:greedy-span",
-               "hyper:kahypar-agglom", "windowed", "windowed-default", "array_contract_tree"]
+               "hyper:kahypar-agglom", "windowed", "windowed-default", "array_contract_tree", "hyper-reconf", "twins"]
     nnets = ctx.n(8, 60)
     jobs = []
     for _ in range(nnets):
@@ -464,6 +502,28 @@ def run(ctx):
                     key = KEY_SPAN
                 ctx.fail("compressed pathfinder %s raised %s" % (job["method"], out["error"]), job, key=key)
                 continue
+            if job["method"] == "twins":
+                for tw in out["twins"]:
+                    ctx.count("twin:" + tw["refiner"])
+                    if not (tw["returns_self"] and tw["complete_in"] and tw["ssa_in"] == tw["ssa_out"] and tw["same_stats"]):
+                        ctx.fail("in-place %s_ and out-of-place %s (same start, same seed) disagree: the in-place tree is "
+                                 "not the ORDERED tree the refiner found (same ssa path: %r, same compressed stats at all "
+                                 "chi: %r)" % (tw["refiner"], tw["refiner"], tw["ssa_in"] == tw["ssa_out"], tw["same_stats"]),
+                                 dict(job, returned=tw))
+                continue
+            if not (out["copy_same_ssa"] and out["copy_same_traverse"] and out["copy_same_stats"]):
+                ctx.fail("tree.copy() of what compressed pathfinder %s returned is not the same ORDERED tree (same ssa "
+                         "path: %r, same surface traversal: %r, same compressed stats at all chi: %r)" % (
+                             job["method"], out["copy_same_ssa"], out["copy_same_traverse"], out["copy_same_stats"]),
+                         dict(job, returned=out))
+            if not out["rebuilt_same_stats"]:
+                ctx.fail("the tree %s returned and the tree rebuilt with from_path(its ssa path) have different "
+                         "compressed stats" % job["method"], dict(job, returned=out))
+            if job["method"] == "hyper-reconf":
+                a, b = out["hyper_best_score"], out["hyper_rebuilt_score"]
+                if a != b:
+                    ctx.fail("HyperCompressedOptimizer(reconf_opts=...) recorded (peak, flops, write) = %r for its best trial, "
+                             "the ordered tree rebuilt from the returned ssa path gives %r" % (a, b), dict(job, returned=out))
             kids = {frozenset(p): (frozenset(l), frozenset(r)) for p, l, r in out["children"]}
             # independent completeness test (structure only)
             ok = out["N"] == N and out["is_complete"] and len(kids) == N - 1
